@@ -14,7 +14,7 @@ def units(tier):
     for t in table_names():
         out.append(("script", SIDECARS, "pyvc.sensor_harness", "table_rows", f"rows:{t}", ("C11", "C12", "C20"), tier,
                     {"tname": t}))
-    return out
+    return out + contract_units(SIDECARS, ['goodwe.protocol.ModbusRtuProtocolCommand.trim_response', 'goodwe.protocol.ModbusTcpProtocolCommand.trim_response', 'goodwe.protocol.Aa55ProtocolCommand.trim_response', 'goodwe.protocol.ModbusRtuProtocolCommand.get_offset', 'goodwe.protocol.ModbusTcpProtocolCommand.get_offset', 'goodwe.protocol.ProtocolCommand.get_offset'], tier)
 
 
 replay = replay_rows
